@@ -93,7 +93,14 @@ ScaleCases == {[kind |-> "scalefac", factors |-> f, ndims |-> n] : f \in {<<R(2)
 TcCases == {[kind |-> "tcoords", shape |-> <<h, w>>] : h \in 2..(IF Wide THEN 12 ELSE 6), w \in 2..(IF Wide THEN 12 ELSE 6)}
 Inv3Cases == {[kind |-> "inv3", cls |-> c, M |-> m] : <<c, m>> \in {<<c, m>> \in (DOMAIN Pool3) \X (UNION {Pool3[x] : x \in DOMAIN Pool3}) : m \in Pool3[c]}}
              \cup {[kind |-> "inv3", cls |-> "Rotation", M |-> QuatM(q)] : q \in Quats}
-Cases == (IF "vec" \in Kinds THEN VecCases(2, Pool2) \cup VecCases(3, [c \in DOMAIN Pool3 \ {"Similarity"} |-> Pool3[c]]) \cup RotVecCases ELSE {})
+\* decomposition of affine-family members (C03): rotation, scale, rotation, translation (numerically an SVD: uninterpreted)
+\* must recompose to the transform; the discrete classes decompose into a copy of themselves
+DecompPool(d) == LET P == IF d = 2 THEN Pool2 ELSE Pool3 IN UNION {{[kind |-> "decompose", d |-> d, cls |-> c, M |-> m] : m \in P[c]} : c \in DOMAIN P \ {"Homogeneous"}}
+DecompCases == DecompPool(2) \cup DecompPool(3)
+                 \cup {[kind |-> "decompose", d |-> 2, cls |-> "Affine", M |-> m] : m \in {M3(R(1),R(2),Z0, R(3),R(1),Z0), M3(Z0,O1,R(2), O1,Z0,R(-1)), M3(R(-2),Z0,Z0, Z0,R(3),R(1))}}     \* negative determinants
+                 \cup {[kind |-> "decompose", d |-> 2, cls |-> "Rotation", M |-> Rot2(Q(3,5),Q(4,5))], [kind |-> "decompose", d |-> 3, cls |-> "Rotation", M |-> RotX(Q(3,5),Q(4,5))]}
+Discrete(cls) == cls \in {"Rotation", "Translation", "UniformScale", "NonUniformScale"}
+Cases == (IF "decompose" \in Kinds THEN DecompCases ELSE {}) \cup (IF "vec" \in Kinds THEN VecCases(2, Pool2) \cup VecCases(3, [c \in DOMAIN Pool3 \ {"Similarity"} |-> Pool3[c]]) \cup RotVecCases ELSE {})
          \cup (IF "alvec" \in Kinds THEN AlCases ELSE {})
          \cup (IF "rot2" \in Kinds THEN Rot2Cases ELSE {}) \cup (IF "rot3" \in Kinds THEN Rot3Cases ELSE {})
          \cup (IF "quat" \in Kinds THEN QuatCases ELSE {}) \cup (IF "about" \in Kinds THEN AboutCases ELSE {})
@@ -123,6 +130,7 @@ Out(c) ==
                                cls |-> IF c.ndims # 0 \/ AllEq(c.factors) THEN "UniformScale" ELSE "NonUniformScale"]
     [] c.kind = "tcoords" -> [case |-> c, M |-> TcM(c.shape), Minv |-> Inv(TcM(c.shape))]
     [] c.kind = "inv3" -> [case |-> c, inv |-> Inv(c.M)]
+    [] c.kind = "decompose" -> [case |-> c, discrete |-> Discrete(c.cls), n_parts |-> IF Discrete(c.cls) THEN 1 ELSE 4, det |-> Det(Lin(c.M))]
 Init == case \in Cases /\ done = FALSE
 Next == done = FALSE /\ done' = TRUE /\ case' = case /\ CSVWrite("%1$s", <<ToJson(Out(case))>>, IOEnv.OUT_FILE)
 Spec == Init /\ [][Next]_<<case, done>>
@@ -134,7 +142,7 @@ Length == IsVec => Len(AsVec(case.cls, case.d, case.M, case.q)) = NParams(case.c
 ClassHonest(cls, M) == CASE cls = "Affine" -> IsAffine(M) [] cls = "Similarity" -> IsSimilarity(M) [] cls = "Translation" -> IsTranslation(M)
                          [] cls = "NonUniformScale" -> IsNonUniformScale(M) [] cls = "UniformScale" -> IsUniformScale(M)
                          [] cls = "Rotation" -> IsRotation(M) [] OTHER -> TRUE
-PoolHonest == (IsVec \/ case.kind = "inv3") => ClassHonest(case.cls, case.M)
+PoolHonest == (IsVec \/ case.kind \in {"inv3", "decompose"}) => ClassHonest(case.cls, case.M)
 FromVecHonest == IsVec => \A v \in OtherVecs(case) : ClassHonest(case.cls, FromVec(case.cls, case.d, v))
 QuatIsRotation == case.kind = "quat" => IsRotation(QuatM(case.q)) /\ QuatM(Canon(case.q)) = QuatM(case.q)
 Inverse3 == case.kind = "inv3" => /\ MMul(Inv(case.M), case.M) = IdM(4) /\ MMul(case.M, Inv(case.M)) = IdM(4)
